@@ -272,6 +272,37 @@ func (fd *folder) fold(f *ssa.Function, args []cval) foldResult {
 				if why != "" {
 					return foldResult{undecided: why}
 				}
+				if base.kind == "ints" || base.kind == "strs" {
+					// a slice of a table (T[:], T[a:b]) is that part of the table
+					n := int64(len(base.ints))
+					if base.kind == "strs" {
+						n = int64(len(base.strs))
+					}
+					lo, hi := int64(0), n
+					if x.Low != nil {
+						c, why := get(x.Low)
+						if why != "" || c.kind != "int" {
+							return foldResult{undecided: "slice low: " + why}
+						}
+						lo = c.i
+					}
+					if x.High != nil {
+						c, why := get(x.High)
+						if why != "" || c.kind != "int" {
+							return foldResult{undecided: "slice high: " + why}
+						}
+						hi = c.i
+					}
+					if lo < 0 || hi < lo || hi > n {
+						return foldResult{panics: fmt.Sprintf("slice bounds out of range [%d:%d] with length %d in %s", lo, hi, n, fnName(f))}
+					}
+					if base.kind == "ints" {
+						env[x] = cval{kind: "ints", ints: base.ints[lo:hi]}
+					} else {
+						env[x] = cval{kind: "strs", strs: base.strs[lo:hi]}
+					}
+					break
+				}
 				if base.kind != "str" && base.kind != "bytes" {
 					return foldResult{undecided: "slice of " + base.kind}
 				}
